@@ -23,7 +23,8 @@ def run(pid, tier):
     wd = workdir(pid)
     cov = {}
     bindir = build_harness()
-    mc_runs("CoLocal", [("MC_CoLocal.cfg", None), ("MC_CoLocal_nodrop.cfg", "Accounted")], tier, cov)
+    mc_runs("CoLocal", [("MC_CoLocal.cfg", None), ("MC_CoLocal_nodrop.cfg", "Accounted"),
+                        ("MC_CoLocal_skip_when_panicking.cfg", "Accounted")], tier, cov)
     thorough = tier == "thorough"
     scs = []
     hs, _ = tlc_replays("CoLocal", cfg(2, ["k1", "k2"], 4 if thorough else 3, False), "ex")
